@@ -154,7 +154,7 @@ def generate(harness_names):
         out = os.path.join(root, d['config'], 'bin', h)
         cxx = c['cxx']
         base = c['cflags'].replace('-fsanitize=fuzzer-no-link,', '-fsanitize=')
-        flags = ' '.join(['-std=gnu++17', base, d['cxxflags']] + incs + ['-I' + os.path.join(VERIF, 'vlib')])
+        flags = ' '.join(['-std=gnu++17', base, d['cxxflags'], '-DVERIF_CFG_ATOMIC_%s=1 -DVERIF_CFG_RWLOCK_%s=1' % (c['atomic'], c['rwlock'])] + incs + ['-I' + os.path.join(VERIF, 'vlib')])
         hobjs = []
         for src in [d['src']] + d['extra']:
             so = os.path.join(root, d['config'], 'hobj', h, os.path.basename(src) + '.o')
